@@ -84,6 +84,8 @@ class Contract:
         self.kind = a.get("kind", "function")  # function | lemma
         self.statement = a.get("statement", None)  # lemma: lambda over args -> bool
         self.inline = tuple(a.get("inline", ()))
+        self.stubs = tuple(a.get("stubs", ()))  # targets whose `local_only` summary is in force for this contract only
+        self.local_only = bool(a.get("local_only", False))
         self.note = a.get("note", "")
         self.assumes = tuple(a.get("assumes", ()))  # unchecked assumptions of this contract, listed in the evidence
         self.result_name = a.get("result_name", "result")
@@ -630,6 +632,17 @@ def verify_contract(world, c, tier="quick", loop_support=None, known=None, only_
                 allv.update({"g_" + k: v for k, v in gvals.items()})
             ip.top_func = f
             ip.top_contract = c
+            # callees this contract wants executed from source although they have a modular
+            # summary (the world is per process and contracts are verified one at a time)
+            world.inline = set(c.inline)
+            # summaries that are only in force while this contract is verified (`stubs`)
+            base = getattr(world, "base_contracts", None)
+            if base is not None:
+                world.contracts = dict(base)
+                for t_ in c.stubs:
+                    if t_ not in world.local_stubs:
+                        raise EngineError(f"{c.name}: no local stub for {t_}")
+                    world.contracts[t_] = world.local_stubs[t_]
             ip.abstract_round = c.abstract_round
             if loop_support is not None:
                 loop_support.install(ip, c, f, allv)
